@@ -261,3 +261,8 @@ def _user_semiring(info, builder):
 
 
 NATIVE_REF = {"Semiring": _user_semiring}
+
+
+def bounded(tier, seed):
+    from bounded import c12
+    return c12.run(tier, seed)
